@@ -13,6 +13,7 @@ pub fn entries() -> Vec<(&'static str, crate::EntryFn)> {
         ("settings-clap", entry_clap),
         ("settings-default", entry_default),
         ("gather", entry_gather),
+        ("settings-eff", entry_eff),
     ]
 }
 
@@ -161,4 +162,28 @@ fn entry_gather(args: &[&str]) -> String {
     };
     let r = gamedig::verif_hook::maybe_gather(toggle, outcome);
     crate::canon::show_res(&r, |o| crate::canon::show_opt(o, |v| v.to_string()))
+}
+
+/// `settings-eff <read> <write> <connect> <retries>` / `settings-eff none`: what the sockets and the retry loops are
+/// handed: the values of the three `*_or_default(s)` helpers
+fn entry_eff(args: &[&str]) -> String {
+    let t: Option<TimeoutSettings> = if args == ["none"] {
+        None
+    } else {
+        if args.len() != 4 {
+            return "bad-case".into();
+        }
+        let (Some(r), Some(w), Some(c), Ok(n)) = (dur_arg(args[0]), dur_arg(args[1]), dur_arg(args[2]), args[3].parse::<usize>()) else {
+            return "bad-case".into();
+        };
+        match TimeoutSettings::new(r, w, c, n) {
+            Ok(t) => Some(t),
+            Err(e) => return format!("ERR {}", kind_name(&e.kind)),
+        }
+    };
+    let (r, w) = TimeoutSettings::get_read_and_write_or_defaults(&t);
+    let c = TimeoutSettings::get_connect_or_default(&t);
+    let n = TimeoutSettings::get_retries_or_default(&t);
+    let d = |x: &Option<Duration>| show_opt(x, |d| format!("{}:{}", d.as_secs(), d.subsec_nanos()));
+    format!("EFF r{} w{} c{} n{}", d(&r), d(&w), d(&c), n)
 }
